@@ -152,7 +152,7 @@ UNITS = {
     },
     'C10': {
         'functions': ['penman.tree:is_atomic', 'penman.tree:_map_vars', 'penman.tree:_nodes', 'penman.tree:Tree.nodes',
-                      'penman.tree:Tree.reset_variables'],
+                      'penman.tree:Tree.reset_variables', 'penman.tree:_default_variable_prefix'],
         'lemmas': [],
         'level': 'other',
         'explanation': 'Proved: _map_vars rewrites a tree exactly as the relabelling spec says (same shape, roles, '
@@ -252,7 +252,7 @@ UNITS = {
             'penman.graph:Graph._filter_triples', 'penman.graph:Graph.instances',
             'penman.graph:Graph.edges', 'penman.graph:Graph.attributes',
             'penman.graph:Graph.__isub__', 'penman.graph:Graph.__ior__', 'penman.graph:Graph.__or__',
-            'penman.graph:Graph.__sub__', 'penman.graph:Graph.reentrancies',
+            'penman.graph:Graph.__sub__', 'penman.graph:Graph.reentrancies', 'penman.graph:Graph.__eq__',
         ],
         'lemmas': [],
         'level': 'other',
